@@ -106,7 +106,7 @@ class Ctx:
     def env(self):
         return {'nx': nxspec.module(), 'networkx': nxspec.module(), 'itemgetter': operator.itemgetter,
                 'super': lambda cls, obj: obj._vc_super_of(cls), 'GraphicalModel': ClassProxy(self, 'GraphicalModel'),
-                'ElfiModel': ClassProxy(self, 'ElfiModel'), 'random_name': lambda *a, **k: _Opaque('random_name'),
+                'ElfiModel': ClassProxy(self, 'ElfiModel'), 'random_name': lambda *a, **k: _Opaque('random_name'), 'dict': vc_dict,
                 'NodeReference': _Opaque('NodeReference')}
 
     def real(self, cls, name, ordinal=None):
@@ -126,6 +126,24 @@ class Ctx:
     def record(self, name, args, result):
         self.calls.setdefault(name, []).append((args, result))
         return result
+
+
+def vc_dict(x=None, **kw):
+    """dict(d): a NEW dict with the same (key, value reference) pairs"""
+    if kw:
+        raise OutOfSubset('dict(**kw)')
+    if x is None:
+        return {}
+    if isinstance(x, SVal):
+        x = x._d('dict()')
+    if isinstance(x, SDict):
+        return x.copy()
+    if isinstance(x, Sym):
+        raise OutOfSubset('dict(%s)' % type(x).__name__)
+    return dict(x)
+
+
+vc_dict._vc_models = dict
 
 
 class _Opaque:
@@ -709,7 +727,8 @@ class RemoveNode(C14Contract):
 
     def ensures(self, s, result):
         g1, h1 = s.G.snap(), s.H.snap()
-        return rn_facts(s.th, s.g0, s.h0, g1, h1, s.name.t, self.obs_mode, s.ctx.ranks) + rn_kept(s.th, s.g0, s.h0, g1, h1, self.elfi, self.obs_mode)
+        return rn_facts(s.th, s.g0, s.h0, g1, h1, s.name.t, self.obs_mode, s.ctx.ranks) + rn_kept(s.th, s.g0, s.h0, g1, h1, self.elfi, self.obs_mode) + \
+            [(l, z3.Implies(elfi_rep(s.th, s.g0, s.h0, self.elfi), f)) for l, f in [owned_within(s.th, s.g0, s.h0, g1, h1, self.elfi)]]
 
 
 # ---------------------------------------------------------------------- update_node
@@ -854,7 +873,8 @@ class UpdateNode(C14Contract):
     def ensures(self, s, result):
         gh = s.ctx.ghost
         g1, h1 = s.G.snap(), s.H.snap()
-        return un_facts(s.th, s.g0, s.h0, g1, h1, s.node.t, s.upd.t, self.mode, gh.rank, gh.N, gh.D) + un_kept(s.th, g1, h1, self.elfi)
+        return un_facts(s.th, s.g0, s.h0, g1, h1, s.node.t, s.upd.t, self.mode, gh.rank, gh.N, gh.D) + un_kept(s.th, g1, h1, self.elfi) + \
+            [owned_within(s.th, s.g0, s.h0, g1, h1, self.elfi)]
 
 
 # ---------------------------------------------------------------------- parameter_names
@@ -967,7 +987,7 @@ class ParameterNamesSet(C14Contract):
         h1 = s.H.snap()
         return self._marks(s, h1, lambda x: z3.BoolVal(True)) + \
             [('the graph is untouched', z3.BoolVal(s.G.node is g.node and s.G.edge is g.edge and s.G.param is g.param and s.G.nattr is g.nattr)),
-             ('model representation kept', elfi_rep(s.th, g, h1))]
+             ('model representation kept', elfi_rep(s.th, g, h1)), owned_within(s.th, g, s.h0, g, h1, True)]
 
 
 # ---------------------------------------------------------------------- copy
@@ -979,6 +999,13 @@ def owned(th, g, h, elfi):
             c.append(r == obsref(th, g, h))
         return z3.Or(c)
     return pred
+
+
+def owned_within(th, g0, h0, g1, h1, elfi):
+    """frame clause every mutator contract carries for the independence argument (lemma_independence_step):
+    the dicts the model owns afterwards are dicts it owned before or dicts allocated by the call"""
+    before, after = owned(th, g0, h0, elfi), owned(th, g1, h1, elfi)
+    return ("owned(model') is within owned(model) + newly allocated dicts", th.forall_refs(lambda r: z3.Implies(after(r), z3.Or(before(r), z3.Not(h0.alloc(r))))))
 
 
 def copy_facts(th, g0, h0, gk, h1, elfi, g0_now_same):
@@ -1167,12 +1194,42 @@ class Become(C14Contract):
              ('the model is edited exactly once', z3.BoolVal(len(calls) == 1))]
 
 
+# ---------------------------------------------------------------------- composition of the independence argument
+class LemmaIndependenceStep(Contract):
+    target = '@verif/lemmas/c14_lemmas.py::lemma_independence_step'
+    prop = 'C14'
+    fin = 3
+
+    def setup(self, vc):
+        ctx = Ctx(vc, 3, 8)
+        th = ctx.th
+        B = z3.BoolSort()
+        f = lambda n, *so: z3.Function(n, *so)
+        s = NS(th=th, ownK=f('ownedK', th.Ref, B), ownK1=f("ownedK'", th.Ref, B), ownM=f('ownedM', th.Ref, B), alloc=f('alloc0', th.Ref, B),
+               has0=f('has0', th.Ref, th.Key, B), has1=f('has1', th.Ref, th.Key, B), val0=f('val0', th.Ref, th.Key, th.Val), val1=f('val1', th.Ref, th.Key, th.Val))
+        return s, (), {}
+
+    def requires(self, s):
+        th = s.th
+        same = lambda r, k: z3.And(s.has1(r, k) == s.has0(r, k), s.val1(r, k) == s.val0(r, k))
+        return [('sep(K, M) (post of copy)', th.forall_refs(lambda r: z3.Implies(s.ownK(r), z3.Not(s.ownM(r))))),
+                ("the original's dicts exist", th.forall_refs(lambda r: z3.Implies(s.ownM(r), s.alloc(r)))),
+                ('frame of the mutator applied to K', th.forall_ref_key(lambda r, k: z3.Implies(z3.Not(same(r, k)), z3.Or(s.ownK(r), z3.Not(s.alloc(r)))))),
+                ("owned(K') is within owned(K) + new dicts", th.forall_refs(lambda r: z3.Implies(s.ownK1(r), z3.Or(s.ownK(r), z3.Not(s.alloc(r))))))]
+
+    def ensures(self, s, result):
+        th = s.th
+        return [("no slot of a dict of the original's view is written",
+                 th.forall_ref_key(lambda r, k: z3.Implies(s.ownM(r), z3.And(s.has1(r, k) == s.has0(r, k), s.val1(r, k) == s.val0(r, k))))),
+                ("sep(K', M) again", th.forall_refs(lambda r: z3.Implies(s.ownK1(r), z3.Not(s.ownM(r)))))]
+
+
 CONTRACTS = [AddNode(), GetParents(), AddEdge('default'), AddEdge('given'), AddEdge('badtype'),
              RemoveNode('GraphicalModel', 'GraphicalModel'), RemoveNode('GraphicalModel', 'ElfiModel'), RemoveNode('ElfiModel', 'ElfiModel'),
              UpdateNode('GraphicalModel', 'GraphicalModel'), UpdateNode('GraphicalModel', 'ElfiModel'), UpdateNode('ElfiModel', 'ElfiModel'),
              ParameterNamesGet(), ParameterNamesSet(),
              Copy('GraphicalModel', 'GraphicalModel'), Copy('GraphicalModel', 'ElfiModel'), Copy('ElfiModel', 'ElfiModel'),
-             Become(True), Become(False)]
+             Become(True), Become(False), LemmaIndependenceStep()]
 
 
 def _ALL():
